@@ -163,6 +163,46 @@ def run(ctx):
     finally:
         for d in tmpdirs:
             shutil.rmtree(d, ignore_errors=True)
+    # stores configured through dds.set_store, twice in one process with the same arguments: the second store starts empty (a new
+    # memory store / a wiped directory), and so must its cache
+    import os
+    for i in range(40 if thorough else 12):
+        kind = "memory" if i % 2 else "local"
+        cap = caps[i % len(caps)]
+        ops1 = gen_ops(rng, rng.randint(3, 15))
+        # the second store is first asked about every key the first one may have seen
+        ops2 = [["has", k] for k in KEYS] + [["fetch", k] for k in KEYS] + gen_ops(rng, rng.randint(3, 15))[2:]
+        if kind == "local":
+            ops1 = [op for op in ops1 if op[0] not in ("sync", "fetch_paths")]
+            ops2 = [op for op in ops2 if op[0] not in ("sync", "fetch_paths")]
+        d = tempfile.mkdtemp(prefix="ddsverif_c12s_")
+        try:
+            args = ("memory", None, None, None, None, cap) if kind == "memory" else ("local", d + "/internal", d + "/data", None, None, cap)
+            api._store_var = None
+            api.set_store(*args)
+            w1 = api._store()
+            for op in ops1:
+                apply_op(w1, op, DDSException)
+            if kind == "local":
+                shutil.rmtree(d, ignore_errors=True)
+                os.makedirs(d)
+            api.set_store(*args)
+            w2 = api._store()
+            bare = MemoryStore() if kind == "memory" else LocalFileStore(d + "/internal_b", d + "/data_b")
+            res.evaluations += 1
+            res.count("set_store_twice_" + kind)
+            res.nontrivial("twice %s cap%d %s %s" % (kind, cap, json.dumps(ops1), json.dumps(ops2)))
+            for j, op in enumerate(ops2):
+                ob = apply_op(bare, op, DDSException)
+                ow = apply_op(w2, op, DDSException)
+                if ob != ow:
+                    res.violations.append({"what": "a store configured by a second dds.set_store call with the same arguments is not transparent: "
+                                                   "op %d %s answers %s on the bare store, %s through the cache" % (j, op, ob, ow),
+                                           "input": {"inner": kind, "capacity": cap, "ops_first_store": ops1, "ops": ops2[: j + 1], "via": "set_store twice"}, "kf": None})
+                    break
+        finally:
+            api._store_var = None
+            shutil.rmtree(d, ignore_errors=True)
     # the capacity chosen by set_store(cache_objects=...)
     copts = [None, False, True, 0, -1, 1, 5, 10 ** 6]
     for c in copts:
